@@ -160,7 +160,9 @@ func SelectGroup(seed []byte, groups []Group) (int, error) {
 	var order []ent
 	total := new(big.Int)
 	for i, g := range groups {
-		if g.Subnets == nil {
+		if len(g.Subnets) == 0 {
+			// a group that lists no subnets takes no part in the choice, and neither does its weight
+			// (deployed clients read the list from a protobuf, where "no subnets" is always nil)
 			continue
 		}
 		order = append(order, ent{i, g.Weight})
@@ -233,7 +235,7 @@ func SelectPhantom(seed []byte, groups []Group, v6 bool) (*Phantom, error) {
 	}
 	tie := false
 	for i, o := range groups {
-		if i != gi && o.Subnets != nil && o.Weight == g.Weight {
+		if i != gi && len(o.Subnets) != 0 && o.Weight == g.Weight {
 			tie = true
 		}
 	}
